@@ -281,6 +281,92 @@ def ob_binary(chk, P):
         ob.absorb(ex)
 
 
+def ob_binary_values(chk, P):
+    """== / != / contains beyond numbers: strings against blank and empty, arrays against arrays, membership in arrays and strings"""
+    with chk.obligation('BinaryCondition::evaluate/values', "== on arrays holds exactly for equal length and pairwise equal elements; a string equals `blank` exactly when it consists of whitespace "
+                        "(any Unicode white space) and `empty` exactly when it has no characters; `contains` on an array is membership by value equality (an integer is not a string that prints alike), "
+                        "on a string it is the substring test",
+                        {'strings': '0..2 characters, each any Unicode scalar value', 'arrays': '0..2 elements, integers (any i64) or one-character strings', 'operators': '== != contains'}) as ob:
+        from checks.C13 import sym_string, str_value
+        from mirsym.models.strings import is_whitespace_expr
+        ex = Executor(P, models_with([])); ex.seed = chk.seed; ex.max_steps = 60000
+        fn = P.find_method('BinaryCondition', 'evaluate', None, 'lib')
+        def run_case(name, lv, op, rv, expected, st, scen):
+            lh = expr_stub(lv, 'lh'); rh = expr_stub(rv, 'rh')
+            self_ = st.ref(Adt('BinaryCondition', None, [lh, Adt('ComparisonOperator', op, []), rh], ['lh', 'comparison', 'rh']))
+            for s2, kind, val in ex.run(fn, [self_, st.ref(Opaque(('RT',)))], st):
+                ob.paths += 1; ob.reached()
+                if kind != 'ret' or val.variant != 'Ok':
+                    m = ob.decide(ex, s2.conds, z3.BoolVal(True))
+                    sc, conf = scen(m)
+                    ob.violation(f'values/{name}/fails', f'{name}: {kind} {val}', {}, sc, conf); continue
+                r = val.items[0]
+                re_ = r.e if isinstance(r, Bool) else z3.BoolVal(bool(r))
+                exp = expected if isinstance(expected, z3.ExprRef) else z3.BoolVal(expected)
+                m = ob.decide(ex, s2.conds, re_ != exp)
+                if m is not None:
+                    sc, conf = scen(m)
+                    ob.violation(f'values/{name}', f'{name}: the condition is {m.eval(re_, model_completion=True)}, the value model says {m.eval(exp, model_completion=True)}', {}, sc, conf)
+        def tpl(cond, g, want):
+            sc = {'kind': 'template', 'template': '{% if ' + cond + ' %}1{% else %}0{% endif %}', 'globals': g}
+            return sc, (lambda r, w=want: r.get('outcome') != 'ok' or r.get('output') != ('1' if w else '0'))
+        # strings against blank / empty
+        for n in range(3):
+            for state in ('Blank', 'Empty'):
+                for side in ('left', 'right'):
+                    st = State(); cs = sym_string(st, n)
+                    ws = z3.And(*[is_whitespace_expr(c) for c in cs]) if cs else z3.BoolVal(True)
+                    expected = ws if state == 'Blank' else z3.BoolVal(n == 0)
+                    sv = str_value(cs); stv = Adt('Value', 'State', [Adt('State', state, [])])
+                    def scen(m, cs=cs, state=state, side=side):
+                        s_ = ''.join(chr(m.eval(c, model_completion=True).as_long()) for c in cs)
+                        want = (s_.strip() == '' and all(ch.isspace() or ord(ch) in (0x85,) for ch in s_)) if state == 'Blank' else (s_ == '')
+                        lit = state.lower()
+                        return tpl(f's == {lit}' if side == 'left' else f'{lit} == s', {'s': s_}, want)
+                    run_case(f'string-vs-{state.lower()}', sv if side == 'left' else stv, 'Equals', stv if side == 'left' else sv, expected, st, scen)
+        # arrays against arrays
+        def arr(vals): return Adt('Value', 'Array', [VecV(vals, 'Vec')])
+        for na in range(3):
+            for nb in range(3):
+                st = State()
+                xs = [z3.BitVec(f'x{i}', 64) for i in range(na)]; ys = [z3.BitVec(f'y{i}', 64) for i in range(nb)]
+                A = arr([value_scalar(scalar_int(Int(x, 'i64'))) for x in xs]); B = arr([value_scalar(scalar_int(Int(y, 'i64'))) for y in ys])
+                eq = z3.And(*[x == y for x, y in zip(xs, ys)]) if (na == nb and na) else z3.BoolVal(na == nb)
+                def scen(m, xs=xs, ys=ys, neg=False):
+                    a_ = [m.eval(x, model_completion=True).as_signed_long() for x in xs]; b_ = [m.eval(y, model_completion=True).as_signed_long() for y in ys]
+                    return tpl('a == b', {'a': a_, 'b': b_}, a_ == b_)
+                run_case('array-equality', A, 'Equals', B, eq, st.clone(), scen)
+                def scen2(m, xs=xs, ys=ys):
+                    a_ = [m.eval(x, model_completion=True).as_signed_long() for x in xs]; b_ = [m.eval(y, model_completion=True).as_signed_long() for y in ys]
+                    return tpl('a != b', {'a': a_, 'b': b_}, a_ != b_)
+                run_case('array-inequality', A, 'NotEquals', B, z3.Not(eq), st.clone(), scen2)
+        # membership
+        for na in range(3):
+            st = State()
+            xs = [z3.BitVec(f'x{i}', 64) for i in range(na)]; y = z3.BitVec('y', 64); c = z3.BitVec('pc', 32); st.assume(z3.And(z3.UGE(c, 48), z3.ULE(c, 57)))
+            A = arr([value_scalar(scalar_int(Int(x, 'i64'))) for x in xs])
+            def scen(m, xs=xs):
+                a_ = [m.eval(x, model_completion=True).as_signed_long() for x in xs]; y_ = m.eval(y, model_completion=True).as_signed_long()
+                return tpl('a contains y', {'a': a_, 'y': y_}, y_ in a_)
+            run_case('array-contains-integer', A, 'Contains', value_scalar(scalar_int(Int(y, 'i64'))), z3.Or(*[x == y for x in xs]) if xs else z3.BoolVal(False), st.clone(), scen)
+            def scen3(m, xs=xs):
+                a_ = [m.eval(x, model_completion=True).as_signed_long() for x in xs]; p_ = chr(m.eval(c, model_completion=True).as_long())
+                if a_: a_[-1] = int(p_)      # the comparison of printed forms is abstract in the model: make an element print exactly as the probe
+                return tpl('a contains p', {'a': a_, 'p': p_}, False)
+            # a one-digit string is never a member of an array of integers, even when an element prints as that digit
+            run_case('array-contains-string', A, 'Contains', str_value([c]), z3.BoolVal(False), st.clone(), scen3)
+        for n in range(3):
+            for pn in range(3):
+                st = State(); cs = sym_string(st, n); ps = sym_string(st, pn, 'p')
+                occ = [z3.And(*[cs[i + k] == ps[k] for k in range(pn)]) if pn else z3.BoolVal(True) for i in range(0, n - pn + 1)]
+                expected = z3.Or(*occ) if occ else z3.BoolVal(False)
+                def scen(m, cs=cs, ps=ps):
+                    s_ = ''.join(chr(m.eval(x, model_completion=True).as_long()) for x in cs); p_ = ''.join(chr(m.eval(x, model_completion=True).as_long()) for x in ps)
+                    return tpl('s contains p', {'s': s_, 'p': p_}, p_ in s_)
+                run_case('string-contains', str_value(cs), 'Contains', str_value(ps), expected, st, scen)
+        ob.absorb(ex)
+
+
 def ops_scenario():
     t = ''; exp = ''
     pool = [(1, 2), (2, 1), (2, 2), (-1, 1), (1, 1.5), (2, 2.0), (3, 2.5), (1.5, 2), (2.5, 2), (2.0, 2), (1.5, 2.5), (2.5, 1.5)]
@@ -393,6 +479,7 @@ def run(chk):
     ob_condition_tree(chk, P)
     ob_parse_condition(chk, P, 3 if chk.tier == 'quick' else 4)
     ob_binary(chk, P)
+    ob_binary_values(chk, P)
     ob_existence(chk, P)
     ob_case(chk, P)
     # translator validation: the reference scenarios themselves must hold natively on the unchanged tree
